@@ -42,6 +42,10 @@ Block ==
                     Fail("mate-distance-round-trip", \A i \in 1..Len(e.back) : e.back[i] = [k |-> e.kind, v |-> e.start + i - 1])
                 ELSE IF e.ev = "raws" THEN
                     Fail("raw-score-round-trip", \A i \in 1..Len(e.rows) : e.rows[i][2] = [k |-> "raw", v |-> e.rows[i][1]])
+                ELSE IF e.ev = "pairs" THEN
+                    \* rows: <<code, move that came back, score that came back>> for one score paired with many moves
+                    Fail("move-lost-or-changed-next-to-a-score", \A i \in 1..Len(e.rows) : e.rows[i][2] = e.rows[i][1])
+                    \cup Fail("score-changed-next-to-a-move", \A i \in 1..Len(e.rows) : e.rows[i][3] = e.score)
                 ELSE IF e.ev = "sentinels" THEN Fail("sentinel-round-trip", e.min.k = "min" /\ e.max.k = "max")
                 ELSE {"unknown-event"}
        IN /\ Report(B) /\ bad' = B
